@@ -303,6 +303,10 @@ impl<A: LoadableAsset + SeekableAsset> TapeImpl for Tap<A> {
     }
 
     fn stop(&mut self) {
+        // Repeated stop must not forget the position to resume from
+        if self.state == TapeState::Stop {
+            return;
+        }
         let state = self.state;
         self.prev_state = state;
         self.state = TapeState::Stop;
@@ -325,6 +329,8 @@ impl<A: LoadableAsset + SeekableAsset> TapeImpl for Tap<A> {
         self.buffer_offset = 0;
         self.current_block_size = None;
         self.delay = 0;
+        // Nothing to resume after rewind, next `play` starts from the first block
+        self.prev_state = TapeState::Stop;
         self.asset.seek(SeekFrom::Start(0))?;
         self.tape_ended = false;
         Ok(())
